@@ -986,4 +986,10 @@ fn spawn_async_ao_list_in_task'''),
         ('backquoted-command-from-the-cooked-text', 'brush-interactive/src/highlighting.rs', "                    .get(piece.start + 1..piece.end.saturating_sub(1))\n                    .unwrap_or(command.as_str());", "                    .get(piece.start + 1..piece.start + 1 + command.len())\n                    .unwrap_or(command.as_str());"),
         ('fallback-span-ends-in-the-middle', 'brush-interactive/src/highlighting.rs', "                global_offset..global_offset + line.len(),", "                global_offset..global_offset + line.len() / 2,"),
     ],
+    'U53': [
+        ('alternative-word-expanded-even-when-unused', 'brush-core/src/expansion.rs', "                let alternative_value = alternative_value.as_ref().map_or(\"\", |v| v.as_str());\n\n                match (test_type, expanded_parameter.classify()) {\n                    (_, ParameterState::NonZeroLength)\n                    | (\n                        brush_parser::word::ParameterTestType::Unset,\n                        ParameterState::DefinedEmptyString,\n                    ) => Ok(self.expand_parameter_word(alternative_value).await?),", "                let alternative_value = alternative_value.as_ref().map_or(\"\", |v| v.as_str());\n                let expanded_alternative = self.expand_parameter_word(alternative_value).await?;\n\n                match (test_type, expanded_parameter.classify()) {\n                    (_, ParameterState::NonZeroLength)\n                    | (\n                        brush_parser::word::ParameterTestType::Unset,\n                        ParameterState::DefinedEmptyString,\n                    ) => Ok(expanded_alternative),"),
+        ('default-word-used-although-the-parameter-is-there', 'brush-core/src/expansion.rs', "                    ) => Ok(expanded_parameter),\n                    _ => Ok(self.expand_parameter_word(default_value).await?),", "                    ) => Ok(self.expand_parameter_word(default_value).await?),\n                    _ => Ok(self.expand_parameter_word(default_value).await?),"),
+        ('assign-default-stores-before-expanding', 'brush-core/src/expansion.rs', "                        let expanded_default_value = self.fields_to_string(expanded_default);\n                        self.assign_to_parameter(&parameter, expanded_default_value.clone())\n                            .await?;", "                        let expanded_default_value = self.fields_to_string(expanded_default);\n                        self.assign_to_parameter(&parameter, String::new())\n                            .await?;"),
+        ('missing-parameter-with-message-succeeds', 'brush-core/src/expansion.rs', "                        // Expansion errors are fatal per POSIX spec\n                        Err(err.into_fatal())", "                        // Expansion errors are fatal per POSIX spec\n                        let _ = err.into_fatal();\n                        Ok(expanded_parameter)"),
+    ],
 }
